@@ -352,15 +352,22 @@ def _dimension_names(tree) -> bool:
     if [a.arg for a in fn.args.args] != ["types"]:
         fail(fn, "_get_short_dimension_names_new signature")
     nodes = list(ast.walk(fn))
-    # readout-time special case
-    sp = [n for n in nodes if isinstance(n, ast.If) and isinstance(n.test, ast.Compare)
-          and len(n.test.ops) == 1 and isinstance(n.test.ops[0], ast.Eq)
-          and isinstance(n.test.comparators[0], ast.Constant) and isinstance(n.test.comparators[0].value, str)]
+    # readout-time special case: `if key == '<readout key>': n = 'readout_time' else: n = short(key)`, or the same as a
+    # conditional expression (the normal form of the former)
+    def str_eq(t):
+        return (isinstance(t, ast.Compare) and len(t.ops) == 1 and isinstance(t.ops[0], ast.Eq)
+                and isinstance(t.comparators[0], ast.Constant) and isinstance(t.comparators[0].value, str))
+
+    sp = [n for n in nodes if isinstance(n, (ast.If, ast.IfExp)) and str_eq(n.test)]
     if len(sp) != 1 or sp[0].test.comparators[0].value != "observation.readout.times":
         fail(fn, "expected exactly one special case, for 'observation.readout.times'")
-    consts = [s.value.value for s in sp[0].body if isinstance(s, (ast.Assign, ast.AnnAssign))
-              and isinstance(s.value, ast.Constant)]
-    others = [_u(s.value) for s in sp[0].orelse if isinstance(s, (ast.Assign, ast.AnnAssign))]
+    if isinstance(sp[0], ast.If):
+        consts = [s.value.value for s in sp[0].body if isinstance(s, (ast.Assign, ast.AnnAssign))
+                  and isinstance(s.value, ast.Constant)]
+        others = [_u(s.value) for s in sp[0].orelse if isinstance(s, (ast.Assign, ast.AnnAssign))]
+    else:
+        consts = [sp[0].body.value] if isinstance(sp[0].body, ast.Constant) else []
+        others = [_u(sp[0].orelse)]
     if consts != ["readout_time"] or len(others) != 1 or not (others[0].startswith("short(") and others[0].endswith(")")):
         fail(sp[0], "special case must give 'readout_time', every other key short(<key>)")
     # shared names: freq > 1
@@ -613,6 +620,17 @@ def _check_decorators(rel: str, node):
                 "<p>.setter / deprecated are known not to keep state)")
 
 
+def _immutable_literal(v) -> bool:
+    """str / number / bool / None / bytes, a negative number, a tuple of those: cannot be filled by a run."""
+    if isinstance(v, ast.Constant):
+        return True
+    if isinstance(v, ast.UnaryOp) and isinstance(v.op, (ast.USub, ast.UAdd)):
+        return isinstance(v.operand, ast.Constant) and isinstance(v.operand.value, (int, float, complex))
+    if isinstance(v, ast.Tuple):
+        return all(_immutable_literal(e) for e in v.elts)
+    return False
+
+
 def _check_module(rel: str, tree: ast.Module, whole: bool = True, only: tuple = ()):
     """The fail-closed net over one module.  whole=False: only the memoisation names and the functions in `only`."""
     for n in ast.walk(tree):
@@ -626,9 +644,17 @@ def _check_module(rel: str, tree: ast.Module, whole: bool = True, only: tuple = 
                 if al.name.split(".")[0] in _MEMO_NAMES or al.name in _MEMO_NAMES or mod.split(".")[0] in _MEMO_NAMES:
                     fail(n, f"{rel}: memoisation import")
     if whole:
+        stores: dict = {}
+        for n in ast.walk(tree):
+            for t in _targets(n):
+                if isinstance(t, ast.Name):
+                    stores[t.id] = stores.get(t.id, 0) + 1
         for st in tree.body:
             if isinstance(st, (ast.Assign, ast.AnnAssign, ast.AugAssign)):
                 names = {t.id for t in _targets(st) if isinstance(t, ast.Name)}
+                if names and len(names) == len(_targets(st)) and isinstance(st, (ast.Assign, ast.AnnAssign)) \
+                        and _immutable_literal(st.value) and all(stores.get(x) == 1 for x in names):
+                    continue        # a named immutable constant, bound once in the whole module (`global` fails anyway)
                 if not names or not names <= _MODULE_VARS.get(rel, set()):
                     fail(st, f"{rel}: module-level variable (state shared by all runs)")
     for st in tree.body:
